@@ -19,6 +19,7 @@ ALL_TRUE = [['X-Requested-With', 'XMLHttpRequest'], ['X-H', '1']]
 
 
 V1, V2 = 'application/vnd.c08.v1+json', 'application/vnd.c08.v2+json'
+ROOT_PREFIXES = ['api', 'api/', '/api/', '/api']
 # kinds whose members sit in a TopologicalSorter and may carry an explicit constraint:
 #   kind -> (key naming a member, constraint placing the member AFTER the named one in the listing the harness reads back,
 #            constraint placing it BEFORE)
@@ -73,7 +74,7 @@ def wellformed(S):
         if s['k'] in CONSTRAINED:
             key, after, before = CONSTRAINED[s['k']]
             names = set(x[key] for x in S if x['k'] == s['k'])
-            builtin = ('application/json',) if s['k'] == 'acceptorder' else ()
+            builtin = ('application/json', 'text/plain') if s['k'] == 'acceptorder' else ()
             for c in (after, before):
                 if s.get(c) is not None and s[c] not in names and s[c] not in builtin:
                     return False
@@ -102,6 +103,8 @@ def gen_program(rng, stream):
             st['rp'] = '1'
         if chance(0.3):
             st['prefix'] = 1
+        if chance(0.15):
+            st['nones'] = 1                  # optional arguments passed explicitly as None
         routes.append(st['name'])
         S.append(st)
     if has_rpred:
@@ -160,6 +163,11 @@ def gen_program(rng, stream):
         else:
             o1['less'] = V2
         S += [o1, o2]
+        if chance(0.5):
+            # RE-DECLARATION of a name the container already holds (a default media type, committed by setup_registry):
+            # legal (no conflict inside this commit), it replaces the member's own constraints only -- the constraints
+            # OTHER members declared relative to it (o1: V1 before json) must survive in either statement order
+            S.append(dict(k='acceptorder', value='application/json', more='text/plain'))
     has_mapper = chance(0.3)
     if has_mapper:
         add(k='mapper')
@@ -176,12 +184,15 @@ def gen_program(rng, stream):
     for kind, p in (('notfound', 0.3), ('forbidden', 0.35), ('exc', 0.3)):
         if chance(p):
             add(k='view', kind=kind)
+            if kind == 'notfound' and chance(0.4):
+                S[-1]['aslash'] = True       # add_notfound_view(append_slash=True): the wrapped view is derived at the statement
     if chance(0.3):
         add(k='view', name='boom', ret='raise')
     # ordinary views
     seen = set()
     kinds_in_slot = {}
     nviews = rng.choice([2, 3, 3, 4, 5, 6])
+    has_wrapper = chance(0.25)
     tries = 0
     views = []
     while len(views) < nviews and tries < 60:
@@ -194,6 +205,9 @@ def gen_program(rng, stream):
             st['route'] = 'zz'                      # a route nobody declares: ConfigurationError in every variant
         if chance(0.3):
             st['ctx'] = rng.choice(['A', 'B'])
+        elif st['name'] == '' and chance(0.2):
+            st['ctx'] = 'E'                         # context=IExceptionResponse: the slot of Pyramid's own default
+                                                    # exception-response view (committed before the program starts)
         if chance(0.35):
             st['method'] = rng.choice(['GET', 'POST'])
         if chance(0.35):
@@ -237,7 +251,23 @@ def gen_program(rng, stream):
         if stream == 'deriv2' or (cons and any(x['k'] == 'deriver' and x['name'] == 'dw' for x in S) and chance(0.6)):
             st['dopt'] = 't'
             st['dopt2'] = 'u'
+        if has_wrapper and chance(0.3) and st.get('ctx') != 'E':
+            st['wrapper'] = 'wr'
+        if chance(0.15):
+            st['nones'] = 1
         views.append(st)
+    evs = [v for v in views if v.get('ctx') == 'E' and not v.get('route')]
+    if evs and chance(0.7):
+        # the slot of the committed default exception-response view gets BOTH a predicate-less replacement and a
+        # predicated member (in the order the shuffle gives them): replacement vs multiview branch of register()
+        sib = dict(k='view', name='', ctx='E')
+        if not any(pred_kinds(v) for v in evs):
+            sib['method'] = 'POST'
+        if view_key(sib) not in seen and not any(pred_kinds(v) == pred_kinds(sib) for v in evs):
+            seen.add(view_key(sib))
+            views.append(sib)
+    if has_wrapper and chance(0.9):
+        views.append(dict(k='view', name='wr', ret='wrap'))      # (sometimes missing: ValueError at request time, in every variant)
     if stream == 'tie' and views:
         # two views of one slot with the same predicate kinds whose predicates can hold together
         base = dict(k='view', name='x', param='a')
@@ -269,6 +299,8 @@ def gen_program(rng, stream):
         views = [v for v in views if not (v['name'] == 'api')]
         views += [dict(k='view', name='api', accept=V2), dict(k='view', name='api', accept=V1),
                   dict(k='view', name='api', accept='application/json')]
+        if any(x['k'] == 'acceptorder' and x['value'] == 'application/json' for x in S):
+            views.append(dict(k='view', name='api', accept='text/plain'))
     if stream == 'pred2' or (cons and any(x['k'] == 'vpred' and x['name'] == 'vq' for x in S)):
         views = [v for v in views if not (v['name'] == 'y' and v.get('route') is None and v.get('ctx') is None)]
         views += [dict(k='view', name='y', vp='1'), dict(k='view', name='y', vq='1')]
@@ -312,18 +344,22 @@ def nest(rng, seq, depth=0):
             i += 1
         else:
             n = rng.randint(1, max(1, min(len(seq) - i, 5)))
-            body.append({'inc': nest(rng, seq[i:i + n], depth + 1)})
+            d = {'inc': nest(rng, seq[i:i + n], depth + 1)}
+            if rng.random() < 0.08:
+                d['twice'] = 1          # the same callable included a second time: processSpec must skip it
+            body.append(d)
             i += n
     return body
 
 
-def probes_for(rng, S):
+def probes_for(rng, S, rootprefix=None):
+    rp = ('/' + rootprefix.strip('/')) if rootprefix and rootprefix.strip('/') else ''
     paths = ['/', '/x', '/y', '/nope', '/nope/deeper']
     for st in S:
         if st['k'] == 'route' and st['pattern'] in dict(PATTERNS):
-            paths.append(('/pfx' if st.get('prefix') else '') + dict(PATTERNS)[st['pattern']])
+            paths.append(rp + ('/pfx' if st.get('prefix') else '') + dict(PATTERNS)[st['pattern']])
         if st['k'] == 'static':
-            paths += ['/%s/hello.txt' % st['name'], '/%s/missing.txt' % st['name']]
+            paths += [rp + '/%s/hello.txt' % st['name'], rp + '/%s/missing.txt' % st['name']]
         if st['k'] == 'view' and st.get('name') == 'boom':
             paths.append('/boom')
         if st['k'] == 'view' and st.get('name') == 'api':
@@ -336,7 +372,8 @@ def probes_for(rng, S):
         out.append(['GET', p, 'a=1&b=1&vp=*&vq=*&rp=1', 'p1', None])
         out.append(['GET', p, 'a=1&b=1&vp=*&vq=*&rp=1', 'p1', None, ALL_TRUE])
         if p == '/api':
-            for acc in ('%s, %s' % (V1, V2), '*/*', 'application/json, %s' % V1, '%s;q=0.9, %s;q=0.1' % ('application/json', V2)):
+            for acc in ('%s, %s' % (V1, V2), '*/*', 'application/json, %s' % V1, '%s;q=0.9, %s;q=0.1' % ('application/json', V2),
+                        'text/plain, application/json', 'text/plain, %s' % V1):
                 out.append(['GET', p, '', 'p1', None, [['Accept', acc]]])
         if any(st.get('accept') for st in S):
             out.append(['GET', p, 'a=1&vp=*', 'p1', None, ALL_TRUE + [['Accept', 'application/json']]])
@@ -401,7 +438,8 @@ def gen_case(rng, tier):
     for j in range(1, k):
         perm = respecting_shuffle(rng, S) if j % 2 == 1 or j > 3 else [s['id'] for s in S]
         variants.append(add_prefixes(rng, nest(rng, perm), S) if j >= 2 else perm)
-    probes = probes_for(rng, S)
+    rootprefix = rng.choice(ROOT_PREFIXES) if any(s['k'] in ('route', 'static') for s in S) and rng.random() < 0.2 else None
+    probes = probes_for(rng, S, rootprefix)
     if stream == 'override':
         cands = [s for s in S if s['k'] in SHADOWABLE and not (s['k'] == 'view' and s.get('kind', 'view') != 'view')]
         rng.shuffle(cands)
@@ -412,8 +450,11 @@ def gen_case(rng, tier):
             shadows[st['id']] = sh['id']
         # variant 0 stays the program without any shadow: the overridden twins must leave no trace at all
         variants = [variants[0]] + [insert_shadows(rng, v, shadows) for v in variants[1:]]
-        probes += [['GET', '/shadow/r0', '', None, None], ['GET', '/shadow/r1', '', 'p1', None]]
+        rp = ('/' + rootprefix.strip('/')) if rootprefix else ''
+        probes += [['GET', rp + '/shadow/r0', '', None, None], ['GET', rp + '/shadow/r1', '', 'p1', None]]
     case = {'stream': stream, 'stmts': S, 'variants': variants, 'probes': probes}
+    if rootprefix:
+        case['rootprefix'] = rootprefix          # Configurator(route_prefix=...): handed on unnormalised to top-level statements
     if not wellformed(S):
         case['illformed'] = True        # deliberately refers to something undeclared: every variant must refuse it
     return case
@@ -440,9 +481,9 @@ def add_prefixes(rng, body, S, inside=False):
             routes = [byid[i] for i in sub if byid[i]['k'] in ('route', 'static')]
             ok = not inside and all(r['k'] == 'route' and r.get('prefix') for r in routes)
             if ok and (routes and rng.random() < 0.7 or rng.random() < 0.1):
-                out.append({'inc': add_prefixes(rng, it['inc'], S, True), 'prefix': 1})
+                out.append(dict(it, inc=add_prefixes(rng, it['inc'], S, True), prefix=1))
             else:
-                out.append({'inc': add_prefixes(rng, it['inc'], S, inside)})
+                out.append(dict(it, inc=add_prefixes(rng, it['inc'], S, inside)))
         else:
             out.append(it)
     return out
